@@ -403,6 +403,21 @@ def ck4(model):
     return r
 
 
+def _join_arg(mod, v):
+    """the list expression that is joined: `'|'.join(X)` -> X; `helper(X)` -> X if the module-level
+    function helper returns a join over (an expression of) its parameter"""
+    if isinstance(v, ast.Call) and isinstance(v.func, ast.Attribute) and v.func.attr == 'join' and v.args:
+        return v.args[0]
+    if isinstance(v, ast.Call) and isinstance(v.func, ast.Name) and len(v.args) == 1:
+        for d in mod.tree.body:
+            if isinstance(d, ast.FunctionDef) and d.name == v.func.id:
+                rets = [x for x in ast.walk(d) if isinstance(x, ast.Return) and x.value is not None]
+                if len(rets) == 1 and isinstance(rets[0].value, ast.Call) and isinstance(rets[0].value.func, ast.Attribute) \
+                        and rets[0].value.func.attr == 'join':
+                    return v.args[0]
+    return None
+
+
 def ck5(model):
     r = RuleResult('CK5', 'the alternations of equation placeholders handed to the checks are '
                    'built from the display / inline collections only and the lists they are built '
@@ -429,9 +444,8 @@ def ck5(model):
                 v = s.value
                 if isinstance(v, ast.Name) and v.id in obj:
                     obj[name] = obj[v.id]          # alias
-                elif isinstance(v, ast.Call) and isinstance(v.func, ast.Attribute) and v.func.attr == 'join' \
-                        and name.startswith('equation_replacements'):
-                    arg = v.args[0]
+                elif name.startswith('equation_replacements') and _join_arg(m, v) is not None:
+                    arg = _join_arg(m, v)
                     names = [x.id for x in ast.walk(arg) if isinstance(x, ast.Name) and x.id in obj]
                     attrs = {x.attr for x in ast.walk(arg) if isinstance(x, ast.Attribute)}
                     muts = []
